@@ -87,7 +87,36 @@ func compiledPattern(t *Term) (string, bool) {
 				return true
 			})
 		}
-		return pat, found && assigns == 0
+		if found && assigns == 0 {
+			return pat, true
+		}
+		// an initialiser that is not a literal (fmt.Sprintf over constants and pure helpers): evaluate the store in the
+		// package initialiser's SSA
+		if assigns == 0 {
+			if sp := progForFacts.SSAPkg(pp); sp != nil {
+				if initFn := sp.Func("init"); initFn != nil {
+					var val ssa.Value
+					n := 0
+					for _, b := range initFn.Blocks {
+						for _, in := range b.Instrs {
+							if st, ok := in.(*ssa.Store); ok {
+								if g, ok := st.Addr.(*ssa.Global); ok && g.Name() == name {
+									val = st.Val
+									n++
+								}
+							}
+						}
+					}
+					if n == 1 {
+						it := NewOrigin(progForFacts, initFn).Of(val)
+						if it.IsCall("regexp.MustCompile") && len(it.Args) == 1 {
+							return foldString(it.Args[0])
+						}
+					}
+				}
+			}
+		}
+		return "", false
 	}
 	return "", false
 }
